@@ -2,6 +2,7 @@
 import io
 import struct
 
+from vf import usage
 from vf.enc import elf as W
 from vf.choose import RndChooser, composite_from
 
@@ -210,6 +211,13 @@ def run_case(ctx, case):
             ctx.fail('symtab|iter|count', 'encoded %d yielded %d' % (n, len(lst)), case)
         for i, (g, s) in enumerate(zip(lst, syms)):
             check_sym('symtab|iter', g, s)
+        # the same walk step by step, with the stream moved, a nested walk started and a lookup made between two steps
+        if len(lst) == n and n <= 400:
+            stepped = usage.stepwise(tab.iter_symbols, usage.disturber(ef.stream, tab.iter_symbols, (lambda: tab.get_symbol_by_name('main'), tab.num_symbols)))
+            if [(g.name, dict(g.entry['st_info']), g.entry['st_value'], g.entry['st_shndx']) for g in stepped] != [(g.name, dict(g.entry['st_info']), g.entry['st_value'], g.entry['st_shndx']) for g in lst]:
+                ctx.fail('symtab|iter|interleaved-with-other-stream-use', 'a plain loop yields %d symbols; a step-by-step walk with other stream users in between %d (or different ones)' % (len(lst), len(stepped)), case)
+            if n >= 2:
+                ctx.count('symtab.stepwise')
     except Exception as e:  # noqa
         ctx.fail_exc('symtab|iter', e, case)
     for i in case.get('probe', []):
